@@ -264,3 +264,268 @@ Section Inv.
     - rewrite EB. exact T2g.
   Qed.
 End Inv.
+
+(* ---- operations of the model other than the wait machine -------------------------------------- *)
+Section Ops.
+  Variable sc : scenario.
+  Variable aids : list id.
+  Hypothesis HD : is_dry (o_dry (sc_opts sc)) = false.
+
+  Notation Inv := (o4_Inv aids).
+  Notation gstep := (o4_gstep aids).
+
+  (* why a Successful wait event of an AllCurrent wait task is justified *)
+  Lemma o4_wok_just s i u : Inv s -> In i aids -> tv s i = Some (SApply, ASucceeded, u) ->
+    changed_uid s i = false -> cond_met AllCurrent s i = true ->
+    o4_okobs (r_cl s) i (cache_get (r_cache s) i).
+  Proof.
+    intros [V G T1 T2a T2g] Hi E CU CM.
+    destruct (T2a i SApply u Hi E) as [c' [F U]].
+    unfold tv, tvl in E. unfold o4_T2g in T2g. unfold cond_met, applied_gen in CM. unfold changed_uid in CU. unfold id in *.
+    destruct (lookup Nat.eqb (r_tbl s) i) as [r|] eqn:L; [|discriminate]. cbn in E. unfold tcore in E. injection E as E1 E2 E3. unfold id in *.
+    pose proof (T2g i r L E1 E2) as GEN. cbn [fst] in CM. rewrite GEN in CM.
+    apply andb_true_iff in CM. destruct CM as [CM1 CM2].
+    set (ob := cache_get (r_cache s) i) in *.
+    assert (ST : s_st ob = SCurrent) by (destruct (s_st ob); try discriminate; reflexivity).
+    destruct (s_body ob) eqn:B; [|discriminate CM2].
+    apply Z.leb_le in CM2. split; [exact ST|]. split; [exact B|]. split; [exact CM2|].
+    exists c'. split; [exact F|].
+    destruct (N.eqb (r_uid r) 0) eqn:U0.
+    - right; left. apply N.eqb_eq in U0. congruence.
+    - cbn [negb] in CU. destruct (N.eqb (s_uid ob) 0) eqn:S0.
+      + left. apply N.eqb_eq. exact S0.
+      + right; right. apply negb_false_iff in CU. apply N.eqb_eq in CU. congruence.
+  Qed.
+
+  (* an object of the apply set whose record is neither pending nor skipped by the wait task has a successful apply *)
+  Definition o4_npend (s : rst) (i : id) : Prop := forall st a u, tv s i = Some (st, a, u) -> a <> APending.
+  Definition o4_srec (s : rst) (i : id) : Prop := In i aids -> exists u, tv s i = Some (SApply, ASucceeded, u).
+
+  Lemma o4_nsk s i : o4_T1 aids s -> o4_npend s i -> w_skipped AllCurrent s i = false -> o4_srec s i.
+  Proof.
+    intros T1 NP WS Hi. destruct (T1 i Hi) as [a [u E]]. exists u. pose proof (NP _ _ _ E) as NA.
+    pose proof E as E0. unfold tv, tvl in E0. unfold w_skipped, is_actuation in WS. unfold id in *.
+    destruct (lookup Nat.eqb (r_tbl s) i) as [r|]; [|discriminate]. cbn in E0. unfold tcore in E0. injection E0 as E1 E2 E3. unfold id in *.
+    rewrite E1, E2 in WS. rewrite E. destruct a; cbn in WS; try discriminate; [contradiction|reflexivity].
+  Qed.
+
+  Lemma o4_tv_same_npend s s' i : (forall j, tv s' j = tv s j) -> o4_npend s i -> o4_npend s' i.
+  Proof. intros E H st a u X. rewrite E in X. exact (H st a u X). Qed.
+  Lemma o4_tv_same_srec s s' i : (forall j, tv s' j = tv s j) -> o4_srec s i -> o4_srec s' i.
+  Proof. intros E H Hi. rewrite E. exact (H Hi). Qed.
+
+  (* ---- the observation cache is written by the delivery loop only ---------------------------------- *)
+  Lemma o4_mc_cache s i : r_cache (maybe_cancel sc s i) = r_cache s.
+  Proof.
+    unfold maybe_cancel. destruct (e_cancel (sc_env sc)); try reflexivity. destruct (Nat.eqb _ _); reflexivity.
+  Qed.
+  Lemma o4_c_inv_list s : r_cache (fst (inv_list sc s)) = r_cache s.
+  Proof. apply (same6_inv_list sc s). Qed.
+  Lemma o4_c_get_obj s i : r_cache (fst (get_obj sc s i)) = r_cache s.
+  Proof. apply (same6_get_obj sc s i). Qed.
+
+  Ltac o4c := cbn [fst r_cache rec_add set_tbl ev emit log_req set_cl add_aband set_abort];
+              rewrite ?o4_mc_cache; try reflexivity; try assumption.
+
+  Lemma o4_c_policy_apply_filter s i : r_cache (fst (policy_apply_filter sc s i)) = r_cache s.
+  Proof.
+    unfold policy_apply_filter. destruct (o_policy (sc_opts sc)); cbn [fst]; try reflexivity.
+    all: pose proof (o4_c_get_obj s i) as G; destruct (get_obj sc s i) as [s1 g]; cbn [fst] in G; destruct g; exact G.
+  Qed.
+
+  Lemma o4_c_kubectl_apply s l : r_cache (fst (kubectl_apply sc s l)) = r_cache s.
+  Proof.
+    unfold kubectl_apply. cbv zeta. destruct (ssa_mode sc).
+    - destruct (faulted sc _); [o4c|].
+      destruct (find_obj _ _); destruct (match o_dry (sc_opts sc) with DServer => true | _ => false end); o4c.
+    - pose proof (o4_c_get_obj s (l_id l)) as G. destruct (get_obj sc s (l_id l)) as [s1 g]. cbn [fst] in G.
+      destruct g; cbn [fst]; try exact G.
+      + destruct (is_dry _); cbn [fst]; [exact G|]. destruct (faulted sc _); o4c.
+      + destruct (negb (patch_needed c l)); cbn [fst]; [exact G|].
+        destruct (is_dry _); cbn [fst]; [exact G|]. destruct (faulted sc _); o4c.
+  Qed.
+
+  Lemma o4_c_inv_apply s ids : r_cache (fst (inv_apply sc s ids)) = r_cache s.
+  Proof.
+    unfold inv_apply. cbv zeta. destruct (faulted sc (FInvGet _)); [o4c|]. destruct (faulted sc (FInvWrite _)); o4c.
+  Qed.
+  Lemma o4_c_inv_update s ids : r_cache (fst (inv_update sc s ids)) = r_cache s.
+  Proof.
+    unfold inv_update. cbv zeta. destruct (faulted sc (FInvWrite _)); [o4c|].
+    cbn [r_cl]. destruct (inv (r_cl s)); o4c.
+  Qed.
+  Lemma o4_c_merge s ids : r_cache (fst (merge sc s ids)) = r_cache s.
+  Proof.
+    unfold merge. cbv zeta.
+    pose proof (o4_c_inv_list s) as L1. destruct (inv_list sc s) as [s1 r1]. cbn [fst] in L1.
+    destruct r1 as [[l|]|]; cbn [fst]; try exact L1.
+    - pose proof (o4_c_inv_list s1) as L2. destruct (inv_list sc s1) as [s2 r2]. cbn [fst] in L2.
+      destruct r2 as [cur0|]; cbn [fst]; [|congruence].
+      destruct (set_eqn _ _ && _); cbn [fst]; [congruence|].
+      destruct (is_dry _); cbn [fst]; [congruence|]. rewrite o4_c_inv_apply. congruence.
+    - destruct (is_dry _); cbn [fst]; [exact L1|]. rewrite o4_c_inv_apply. exact L1.
+  Qed.
+  Lemma o4_c_replace s ids : r_cache (fst (replace sc s ids)) = r_cache s.
+  Proof.
+    unfold replace. cbv zeta. destruct (is_dry _); cbn [fst]; [reflexivity|].
+    pose proof (o4_c_inv_list s) as L1. destruct (inv_list sc s) as [s1 r1]. cbn [fst] in L1.
+    destruct r1 as [x|]; cbn [fst]; [|exact L1].
+    pose proof (o4_c_inv_list s1) as L2. destruct (inv_list sc s1) as [s2 r2]. cbn [fst] in L2.
+    destruct r2 as [[cur|]|]; cbn [fst]; try congruence.
+    destruct (set_eqn _ _ && _); cbn [fst]; [congruence|]. rewrite o4_c_inv_update. congruence.
+  Qed.
+  Lemma o4_c_delete_inventory s : r_cache (fst (delete_inventory sc s)) = r_cache s.
+  Proof.
+    unfold delete_inventory. cbv zeta.
+    pose proof (o4_c_inv_list s) as L1. destruct (inv_list sc s) as [s1 r1]. cbn [fst] in L1.
+    destruct r1 as [[l|]|]; cbn [fst]; try exact L1.
+    destruct (is_dry _); cbn [fst]; [exact L1|]. destruct (faulted sc FInvDelete); o4c.
+  Qed.
+  Lemma o4_c_inv_set_task pl prev s : r_cache (fst (inv_set_task sc pl prev s)) = r_cache s.
+  Proof.
+    unfold inv_set_task. destruct prev as [pv|]; cbn [fst]; [|reflexivity].
+    destruct (o_destroy (sc_opts sc) && destroy_successful pl pv s); [apply o4_c_delete_inventory|apply o4_c_replace].
+  Qed.
+  Lemma o4_c_inv_add_task pl s : r_cache (fst (inv_add_task sc pl s)) = r_cache s.
+  Proof.
+    unfold inv_add_task. cbv zeta.
+    match goal with |- r_cache (fst (let '(s1, ok1) := ?X in _)) = _ =>
+      assert (H : r_cache (fst X) = r_cache s); [|destruct X as [s1 ok1]; cbn [fst] in H] end.
+    { destruct (match sc_inv_ns sc with Some n => _ | None => None end) as [p|]; [|reflexivity].
+      destruct (p_local p); [|reflexivity].
+      destruct (is_dry _); cbn [fst]; [reflexivity|].
+      destruct (faulted sc FNsCreate); [o4c|].
+      destruct (find_obj _ _); o4c. }
+    destruct ok1; cbn [fst]; [|exact H]. rewrite o4_c_merge. exact H.
+  Qed.
+  Lemma o4_c_prune_one pl locals g uids s p : r_cache (prune_one sc pl locals g uids s p) = r_cache s.
+  Proof.
+    unfold prune_one. cbv zeta. destruct (p_live p) as [c|]; [|reflexivity].
+    destruct (prune_filters sc pl locals (r_tbl s) uids c).
+    all: repeat match goal with
+                | |- context [if ?b then _ else _] => destruct b
+                | |- context [match c_owner ?x with _ => _ end] => destruct (c_owner x)
+                | |- context [match find_obj ?a ?b with _ => _ end] => destruct (find_obj a b)
+                end.
+    all: o4c.
+  Qed.
+
+  (* ---- one object of an apply task ------------------------------------------------------------------ *)
+  Lemma o4_apply_one_spec pl g s p l : p_local p = Some l -> l_id l = p_id p ->
+    let i := p_id p in
+    let s' := apply_one sc pl g s p in
+    exists a u gen lt,
+      r_tbl s' = set_status Nat.eqb (r_tbl s) (mkRec i SApply a RPending u gen) /\
+      a <> APending /\ r_cache s' = r_cache s /\
+      r_tr s' = IEv (EApply g i (ast_of a)) :: lt ++ r_tr s /\ Forall (snap_of (r_cl s')) lt /\
+      (a = ASucceeded -> gen = harness_gen /\ applied (r_cl s) (r_cl s') i u) /\
+      (a <> ASucceeded -> r_cl s' = r_cl s).
+  Proof.
+    intros EL EI. cbv zeta. unfold apply_one. rewrite EL.
+    pose proof (same4_policy_apply_filter sc s (p_id p)) as P. pose proof (o4_c_policy_apply_filter s (p_id p)) as PC.
+    destruct (policy_apply_filter sc s (p_id p)) as [s1 f1]. cbn [fst] in P, PC. destruct P as [P1 [P2 [P3 P4]]].
+    destruct (match f1 with FPass => _ | _ => _ end).
+    - pose proof (kubectl_apply_spec sc s1 l) as K. cbv zeta in K. pose proof (o4_c_kubectl_apply s1 l) as KC.
+      destruct (kubectl_apply sc s1 l) as [s2 r]. cbn [fst snd] in K, KC.
+      destruct K as [K1 [K2 [lt [K3 [K4 K5]]]]].
+      destruct r as [u|]; cbn [fst snd log_req emit ev rec_add set_tbl set_cl add_aband r_cl r_tbl r_aband r_tr r_cache].
+      + exists ASucceeded, u, harness_gen, lt.
+        split; [rewrite K1, P2; reflexivity|]. split; [discriminate|]. split; [congruence|].
+        split; [rewrite K3, P4; reflexivity|]. split; [exact K4|]. split; [|intros X; congruence].
+        intros _. split; [reflexivity|]. rewrite <- EI, <- P1.
+        destruct K5 as [[D _]|[_ C]]; [rewrite HD in D; discriminate|exact C].
+      + exists AFailed, 0%N, 0%Z, lt.
+        split; [rewrite K1, P2; reflexivity|]. split; [discriminate|]. split; [congruence|].
+        split; [rewrite K3, P4; reflexivity|]. split; [exact K4|]. split; [discriminate|]. intros _. congruence.
+    - cbn [fst snd log_req emit ev rec_add set_tbl set_cl add_aband r_cl r_tbl r_aband r_tr r_cache].
+      exists ASkipped, 0%N, 0%Z, []. rewrite P1, P2, P4.
+      split; [reflexivity|]. split; [discriminate|]. split; [exact PC|]. split; [reflexivity|]. split; [constructor|].
+      split; [discriminate|reflexivity].
+    - cbn [fst snd log_req emit ev rec_add set_tbl set_cl add_aband r_cl r_tbl r_aband r_tr r_cache].
+      exists AFailed, 0%N, 0%Z, []. rewrite P1, P2, P4.
+      split; [reflexivity|]. split; [discriminate|]. split; [exact PC|]. split; [reflexivity|]. split; [constructor|].
+      split; [discriminate|reflexivity].
+  Qed.
+
+  (* an object of an apply layer as the plan builds it *)
+  Definition o4_lok (p : pobj) : Prop := exists l, p_local p = Some l /\ l_id l = p_id p /\ In (p_id p) aids.
+
+  Lemma o4_apply_one_tv pl g s p j : o4_lok p ->
+    exists a u, a <> APending /\
+      tv (apply_one sc pl g s p) j = if Nat.eqb (p_id p) j then Some (SApply, a, u) else tv s j.
+  Proof.
+    intros [l [EL [EI _]]]. destruct (o4_apply_one_spec pl g s p l EL EI) as [a [u [gen [lt [ET [NA _]]]]]].
+    cbv zeta in ET. exists a, u. split; [exact NA|]. unfold tv. rewrite ET, tvl_set_status. reflexivity.
+  Qed.
+
+  Lemma o4_inv_apply_one pl g s p : o4_lok p -> Inv s -> Inv (apply_one sc pl g s p).
+  Proof.
+    intros [l [EL [EI Hi]]] [V G T1 T2a T2g].
+    destruct (o4_apply_one_spec pl g s p l EL EI) as [a [u [gen [lt [ET [NA [EC [ETR [SF [SU NS]]]]]]]]]].
+    cbv zeta in *. destruct (o4_snap_boring _ _ SF) as [F1 F2].
+    assert (TV : forall j, tv (apply_one sc pl g s p) j = if Nat.eqb (p_id p) j then Some (SApply, a, u) else tv s j)
+      by (intros j; unfold tv; rewrite ET, tvl_set_status; reflexivity).
+    assert (C : o4_Cl aids (r_cl s) (r_cl (apply_one sc pl g s p))).
+    { destruct (actuation_eqb a ASucceeded) eqn:EA.
+      - apply actuation_eqb_eq in EA. destruct (SU EA) as [_ AP]. exact (o4_Cl_applied aids _ _ _ _ AP).
+      - apply o4_Cl_eq. apply NS. intros X. subst a. discriminate EA. }
+    constructor.
+    - apply (o4_V_ext s _ (IEv (EApply g (p_id p) (ast_of a)) :: lt) EC ETR); [constructor; [exact I|exact F2]|exact V].
+    - apply (o4_G_ext aids s _ (IEv (EApply g (p_id p) (ast_of a)) :: lt) C ETR); [constructor; [exact I|exact F1]|exact G].
+    - intros e He. rewrite TV. destruct (Nat.eqb (p_id p) e); [exists a, u; reflexivity|exact (T1 e He)].
+    - intros e st u0 He E. rewrite TV in E. destruct (Nat.eqb (p_id p) e) eqn:EE.
+      + apply Nat.eqb_eq in EE. subst e. injection E as _ E2 E3. subst a u0.
+        destruct (SU eq_refl) as [_ [_ [n [Fn [_ [Un _]]]]]]. exists n. split; assumption.
+      + destruct (T2a e st u0 He E) as [c' [F U]]. destruct (C e He c' F) as [c'' [F' U']].
+        exists c''. split; [exact F'|congruence].
+    - rewrite ET. apply o4_T2g_set_status; [|exact T2g]. cbn [r_str r_act r_gen]. intros _ EA. exact (proj1 (SU EA)).
+  Qed.
+
+  (* ---- one object of a prune task: an id outside the apply set ------------------------------------------ *)
+  Lemma o4_g_prune_one pl locals g uids s c : ~ In (c_id c) aids ->
+    gstep s (prune_one sc pl locals g uids s (pobj_of_live c)).
+  Proof.
+    intros N. destruct (prune_one_spec sc pl locals g uids s c) as [a [u [ab [lt [ET [_ [ETR [SF [_ CS]]]]]]]]].
+    cbv zeta in *. destruct (o4_snap_boring _ _ SF) as [F1 F2].
+    split.
+    { intros j Hj. unfold tv. rewrite ET, tvl_set_status. cbn [r_id].
+      destruct (Nat.eqb (c_id c) j) eqn:E; [|reflexivity]. apply Nat.eqb_eq in E. subst j. contradiction. }
+    split.
+    { intros H. rewrite ET. apply o4_T2g_set_status; [|exact H]. cbn [r_str]. discriminate. }
+    split; [apply o4_c_prune_one|]. split.
+    { destruct CS as [[_ [_ C]]|[[_ [_ [C _]]]|[[_ [_ [C _]]]|[[_ [_ [C _]]]|[_ [_ [C _]]]]]]].
+      - apply o4_Cl_eq. exact C.
+      - apply o4_Cl_eq. exact C.
+      - exact (o4_Cl_frame aids _ _ _ C N).
+      - apply o4_Cl_eq. exact C.
+      - exact (o4_Cl_frame aids _ _ _ C N). }
+    exists (IEv (EPrune g (c_id c) (ast_of a)) :: lt). split; [exact ETR|].
+    split; constructor; try exact I; assumption.
+  Qed.
+
+  (* ---- the inventory tasks ----------------------------------------------------------------------------------- *)
+  Lemma o4_g_inv_set_task pl prev s : gstep s (fst (inv_set_task sc pl prev s)).
+  Proof.
+    destruct (inv_set_task_spec sc pl prev s) as [ET [_ [[IC _] [lt [ETR CS]]]]]. cbv zeta in *.
+    apply (o4_gstep_tbl aids s _ lt ET (o4_c_inv_set_task pl prev s) (o4_Cl_objs aids _ _ IC) ETR).
+    - destruct CS as [[_ SF]|[[pv [_ [_ [_ [_ [_ ->]]]]]]|[pv [_ [_ [_ SF]]]]]];
+        [exact (proj1 (o4_snap_boring _ _ SF))|repeat constructor|exact (proj1 (o4_snap_boring _ _ SF))].
+    - destruct CS as [[_ SF]|[[pv [_ [_ [_ [_ [_ ->]]]]]]|[pv [_ [_ [_ SF]]]]]];
+        [exact (proj2 (o4_snap_boring _ _ SF))|repeat constructor|exact (proj2 (o4_snap_boring _ _ SF))].
+  Qed.
+
+  Lemma o4_g_inv_add_task pl s :
+    (forall p l, In p (pl_apply pl) -> p_local p = Some l -> l_id l = p_id p) ->
+    gstep s (fst (inv_add_task sc pl s)).
+  Proof.
+    intros Hloc. destruct (inv_add_task_spec sc pl s Hloc) as [ET [_ [cl1 [lt1 [lt2 [ETR [C1 [[IC _] [SF2 _]]]]]]]]].
+    apply (o4_gstep_tbl aids s _ (lt2 ++ lt1) ET (o4_c_inv_add_task pl s)).
+    - apply (o4_Cl_trans aids _ cl1); [|exact (o4_Cl_objs aids _ _ IC)].
+      destruct C1 as [[-> _]|[_ [n [u [_ [_ [_ [AP _]]]]]]]]; [apply o4_Cl_refl|exact (o4_Cl_applied aids _ _ _ _ AP)].
+    - rewrite ETR, app_assoc. reflexivity.
+    - apply Forall_app. split; [exact (proj1 (o4_snap_boring _ _ SF2))|].
+      destruct C1 as [[_ SF]|[_ [n [u [_ [_ [_ [_ ->]]]]]]]]; [exact (proj1 (o4_snap_boring _ _ SF))|repeat constructor].
+    - apply Forall_app. split; [exact (proj2 (o4_snap_boring _ _ SF2))|].
+      destruct C1 as [[_ SF]|[_ [n [u [_ [_ [_ [_ ->]]]]]]]]; [exact (proj2 (o4_snap_boring _ _ SF))|repeat constructor].
+  Qed.
+End Ops.
